@@ -58,8 +58,8 @@ func (r *Run) opDeviceAuthz(st Step) {
 	if !authValid(cs, st.A) {
 		r.violate("C10", "processed-without-client-auth", "device_authorization", "%s: a device authorization was started although client authentication was invalid", desc)
 	}
-	if r.Fault.fired {
-		r.violate("C18", "success-despite-storage-failure", "device_authorization", "%s: a storage call failed (%s) but device/user codes were returned", desc, r.Fault.spec.Kind)
+	if r.Fault.mustRefuse() {
+		r.violate("C18", "success-despite-storage-failure", "device_authorization", "%s: a storage call failed (%s) but device/user codes were returned", desc, r.Fault.desc())
 	}
 	now := r.now()
 	g := r.L.NewGrant(&Grant{Client: cs.ID, Origin: "device", Scopes: nil, Audience: splitNonEmpty(st.p("aud")), ReqAt: now,
@@ -264,7 +264,9 @@ func (r *Run) opDeviceToken(st Step) {
 	}
 	if faulted {
 		if tokens {
-			r.violate("C18", "tokens-despite-storage-failure", "device_code", "%s: a storage call failed (%s) but the response carries tokens", desc, r.Fault.spec.Kind)
+			if r.Fault.mustRefuse() {
+				r.violate("C18", "tokens-despite-storage-failure", "device_code", "%s: a storage call failed (%s) but the response carries tokens", desc, r.Fault.desc())
+			}
 			r.onDeviceSuccess(dc, cs, res)
 		} else {
 			g.Unspec = true
@@ -376,8 +378,8 @@ func (r *Run) opPARPush(st Step) {
 	if st.p("embed_request_uri") != "" {
 		r.violate("C17", "push-with-embedded-request-uri", "", "%s: a pushed request containing request_uri was accepted", desc)
 	}
-	if r.Fault.fired {
-		r.violate("C18", "success-despite-storage-failure", "par", "%s: a storage call failed (%s) but a request_uri was returned", desc, r.Fault.spec.Kind)
+	if r.Fault.mustRefuse() {
+		r.violate("C18", "success-despite-storage-failure", "par", "%s: a storage call failed (%s) but a request_uri was returned", desc, r.Fault.desc())
 	}
 	if !strings.HasPrefix(uri, r.W.K.DocPARPrefix()) {
 		r.violate("C17", "request-uri-prefix", "", "request_uri %q lacks the configured prefix %q", truncate(uri, 60), r.W.K.DocPARPrefix())
@@ -532,7 +534,13 @@ func (r *Run) opAuthorizePAR(st Step) {
 		return
 	}
 	if !started {
-		if exp == Must {
+		covered := true
+		for _, sc := range splitNonEmpty(pc.Extra["scope"]) {
+			if RefScopeMatch(r.W.K.ScopeStrategy, owner.Scopes, sc) != Yes {
+				covered = false // the registration changed after the push: refusal is legitimate
+			}
+		}
+		if exp == Must && covered {
 			// the pushed request itself may be un-answerable (e.g. consent-time failure); only flag when nothing explains it
 			r.sanity("%s refused with %s (%v)", desc, res.ErrName, res.Err)
 		}
@@ -664,8 +672,8 @@ func (r *Run) opJWTBearer(st Step) {
 	if !authValid(cs, st.A) && !r.W.K.JWTBearerSkipClientAuth {
 		r.judgeBadAuth("jwt_bearer", desc, res)
 	}
-	if r.Fault.fired {
-		r.violate("C18", "tokens-despite-storage-failure", "jwt_bearer", "%s: a storage call failed (%s) but the response carries tokens", desc, r.Fault.spec.Kind)
+	if r.Fault.mustRefuse() {
+		r.violate("C18", "tokens-despite-storage-failure", "jwt_bearer", "%s: a storage call failed (%s) but the response carries tokens", desc, r.Fault.desc())
 	}
 	g := r.L.NewGrant(&Grant{Client: cs.ID, Origin: "jwt_bearer", Subject: b.Subject, Scopes: splitNonEmpty(st.p("scope")), Audience: []string{TokenURL}, ReqAt: r.now()})
 	if st.A == "none" {
